@@ -151,41 +151,50 @@ fn c12_png_sniffer_truncated() {
     }
 }
 
-// @harness prop=C12 tier=thorough expect=pass timeout=900
+// @harness prop=C12 tier=quick expect=pass timeout=900
 // @units metadata::PictureMetrics::try_png::plte_colors
-// @bound palette PNG: valid IHDR (colour type 3), then a gAMA chunk of length 2 with arbitrary payload and CRC (skipped), then a PLTE chunk header with an arbitrary 32-bit length
-// @oracle no panic of any kind; terminates (unwinding assertions)
+// @bound palette PNG: valid IHDR (colour type 3), then an ancillary (gAMA) chunk whose 32-bit length is pinned in turn to 2, 0x7FFFFFFF and 0xFFFFFFFC with arbitrary payload/CRC bytes, then a PLTE chunk header with an arbitrary 32-bit length
+// @oracle no panic of any kind (overflow on the untrusted chunk length included); a chunk running past the data is an error; terminates (unwinding assertions)
 #[kani::proof]
 #[kani::unwind(12)]
 fn c12_png_palette_scan() {
-    let mut data: [u8; 33 + 14 + 8] = kani::any();
-    png_sig(&mut data);
-    data[8] = 0;
-    data[9] = 0;
-    data[10] = 0;
-    data[11] = 0x0d;
-    data[12] = b'I';
-    data[13] = b'H';
-    data[14] = b'D';
-    data[15] = b'R';
-    data[25] = 3;
-    // first chunk: length 2, tag not PLTE
-    data[33] = 0;
-    data[34] = 0;
-    data[35] = 0;
-    data[36] = 2;
-    data[37] = b'g';
-    data[38] = b'A';
-    data[39] = b'M';
-    data[40] = b'A';
-    // second chunk header: PLTE with any 32-bit length
-    data[51] = b'P';
-    data[52] = b'L';
-    data[53] = b'T';
-    data[54] = b'E';
-    let r = PictureMetrics::try_new(&data);
-    kani::cover!(r.is_ok());
-    std::mem::forget(r);
+    const LENS: [u32; 3] = [2, 0x7FFF_FFFF, 0xFFFF_FFFC];
+    let mut k = 0;
+    while k < LENS.len() {
+        let mut data: [u8; 33 + 14 + 8] = kani::any();
+        png_sig(&mut data);
+        data[8] = 0;
+        data[9] = 0;
+        data[10] = 0;
+        data[11] = 0x0d;
+        data[12] = b'I';
+        data[13] = b'H';
+        data[14] = b'D';
+        data[15] = b'R';
+        data[25] = 3;
+        // first chunk: gAMA with the pinned length
+        let l = LENS[k].to_be_bytes();
+        data[33] = l[0];
+        data[34] = l[1];
+        data[35] = l[2];
+        data[36] = l[3];
+        data[37] = b'g';
+        data[38] = b'A';
+        data[39] = b'M';
+        data[40] = b'A';
+        // where a following PLTE chunk header would be for length 0 / 2
+        let at = 41 + (if LENS[k] <= 2 { LENS[k] as usize } else { 2 }) + 4;
+        data[at + 4] = b'P';
+        data[at + 5] = b'L';
+        data[at + 6] = b'T';
+        data[at + 7] = b'E';
+        let r = PictureMetrics::try_new(&data);
+        if LENS[k] > 2 {
+            assert!(r.is_err());
+        }
+        std::mem::forget(r);
+        k += 1;
+    }
 }
 
 // @harness prop=C12 tier=quick expect=pass timeout=600
